@@ -141,7 +141,11 @@ func ruleC04(p *Prog, r *Res) {
 		resetX := map[string][]ast.Node{}
 		ast.Inspect(f.Body(), func(x ast.Node) bool {
 			rs, ok := x.(*ast.RangeStmt)
-			if !ok || types.ExprString(rs.X) != "progressGroups" {
+			if !ok {
+				return true
+			}
+			// by type, not by name: a range over a slice of progressGroup
+			if sl, isSl := info.TypeOf(rs.X).Underlying().(*types.Slice); !isSl || pg == nil || namedOf(sl.Elem()) == nil || namedOf(sl.Elem()).Obj() != pg.Obj() {
 				return true
 			}
 			ast.Inspect(rs.Body, func(y ast.Node) bool {
@@ -167,8 +171,21 @@ func ruleC04(p *Prog, r *Res) {
 			if !ok {
 				return false
 			}
+			// by role, not by name: a call of a local function VALUE (a data source closure) that takes the stream
 			id, ok := c.Fun.(*ast.Ident)
-			return ok && id.Name == "dataSource"
+			if !ok {
+				return false
+			}
+			v, isVar := info.Uses[id].(*types.Var)
+			if !isVar {
+				return false
+			}
+			sig, isSig := v.Type().Underlying().(*types.Signature)
+			if !isSig || sig.Params().Len() != 1 || sig.Results().Len() != 3 {
+				return false
+			}
+			pn := namedOf(sig.Params().At(0).Type())
+			return pn != nil && pn.Obj().Name() == "stream"
 		})
 		nb := 0
 		for _, fld := range []string{"variantResults", "successes", "fails", "variants"} {
@@ -362,7 +379,7 @@ func ruleSuffixBranchOwned(ruleD string) func(*Prog, *Res) {
 						return true
 					}
 					id, ok := c.Fun.(*ast.Ident)
-					if !ok || id.Name != "evaluate" {
+					if !ok || !isLocalFuncVar(info, id) {
 						return true
 					}
 					u, ok := ast.Unparen(c.Args[0]).(*ast.UnaryExpr)
